@@ -12,6 +12,7 @@ from typing import Mapping
 from typing import TextIO
 
 from .context import RenderContext
+from .exceptions import ContextDepthError
 from .exceptions import LiquidError
 from .exceptions import LiquidInterrupt
 from .exceptions import LiquidSyntaxError
@@ -128,6 +129,14 @@ class Template:
                             template_name=self.full_name(),
                         ) from err
                     raise
+                except RecursionError as err:
+                    # Templates that include, render or extend each other can run out
+                    # of stack before they reach the context depth limit.
+                    raise ContextDepthError(
+                        "maximum recursion depth reached, possible recursive include",
+                        token=node.token,
+                        template_name=self.full_name(),
+                    ) from err
                 except LiquidError as err:
                     if not err.template_name:
                         err.template_name = self.full_name()
@@ -162,6 +171,14 @@ class Template:
                             template_name=self.full_name(),
                         ) from err
                     raise
+                except RecursionError as err:
+                    # Templates that include, render or extend each other can run out
+                    # of stack before they reach the context depth limit.
+                    raise ContextDepthError(
+                        "maximum recursion depth reached, possible recursive include",
+                        token=node.token,
+                        template_name=self.full_name(),
+                    ) from err
                 except LiquidError as err:
                     if not err.template_name:
                         err.template_name = self.full_name()
